@@ -74,6 +74,7 @@ fn main() {
     let mut replay: Option<String> = None;
     let mut worker: Option<(u64, u64)> = None;
     let mut out: Option<String> = None;
+    let mut resume: Option<u64> = None;
     while i < args.len() {
         match args[i].as_str() {
             "quick" => tier = Tier::Quick,
@@ -92,6 +93,10 @@ fn main() {
                 i += 1;
                 out = Some(args.get(i).cloned().unwrap_or_else(|| usage()));
             }
+            "--resume-after" => {
+                i += 1;
+                resume = args.get(i).and_then(|x| x.parse::<u64>().ok());
+            }
             _ => usage(),
         }
         i += 1;
@@ -99,7 +104,7 @@ fn main() {
     let code = if let Some(r) = replay {
         replay_main(prop.as_ref(), &r)
     } else if let Some((s, n)) = worker {
-        worker_main(prop.as_ref(), tier, seed, s, n, &out.unwrap_or_else(|| usage()))
+        worker_main(prop.as_ref(), tier, seed, s, n, &out.unwrap_or_else(|| usage()), resume)
     } else {
         parent_main(prop.as_ref(), tier, seed)
     };
